@@ -170,8 +170,6 @@ def child_main(cfg_path):
     os._exit(0)
 
 
-if __name__ == '__main__' and len(sys.argv) >= 3 and sys.argv[1] == '--child':
-    child_main(sys.argv[2])
 
 
 # =============================================================================================
@@ -243,7 +241,7 @@ def shm_names():
 
 
 def run_bane(workdir, tag, fits_path, shape, step, box, cores, nslice, mask, schedule=None, faults=(),
-             hook=True, entry='mc', watchdog=WATCHDOG, patience=0.35):
+             hook=True, entry='mc', watchdog=WATCHDOG, patience=0.35, interrupt=False):
     """
     One BANE run in a child process group.
     schedule: None (free run: hook only logs) or a list of grants (ymin_index, phase, settle) where
@@ -283,6 +281,8 @@ def run_bane(workdir, tag, fits_path, shape, step, box, cores, nslice, mask, sch
     todo = list(schedule) if schedule else []
     giveup = max(3.0, watchdog / 2.0)
     controlled = set((i, ph) for i, ph, _ in todo)
+    if interrupt:
+        todo = []          # the b1 points stay controlled (held) and are never granted
     granted = set()            # (ymin, phase)
     grants = []                # actual grant order (index, phase)
     faults_made = False
@@ -313,6 +313,16 @@ def run_bane(workdir, tag, fits_path, shape, step, box, cores, nslice, mask, sch
                 faults_made = True
             except Exception:
                 layout = None
+        if interrupt and hook and not freed and ymins is not None:
+            # every stripe is forked, has done pass 1 and is held before barrier 1: Ctrl-C for the whole group
+            if sum(1 for t, _, _, ph in read_events(vdir) if t == 'E' and ph == 'b1') >= len(ymins):
+                try:
+                    os.killpg(p.pid, signal.SIGINT)
+                except (ProcessLookupError, PermissionError):
+                    pass
+                freed = True
+                t_free = now
+                grants.append(('SIGINT', 'b1'))
         if hook and not freed and ymins is not None and faults_made:
             ev = read_events(vdir)
             if len(ev) != n_events:
@@ -366,7 +376,7 @@ def run_bane(workdir, tag, fits_path, shape, step, box, cores, nslice, mask, sch
                     elif settle == 'next':
                         settle_next = (y, sum(1 for yy, _ in arrived if yy == y))
                         settle_until = now + 0.002
-            if not todo and settle_next is None and now >= settle_until:
+            if not todo and settle_next is None and now >= settle_until and not interrupt:
                 open(os.path.join(vdir, 'free'), 'w').close()
                 freed = True
                 t_free = now
@@ -1104,6 +1114,8 @@ def run(ctx):
     layout_sweep(ctx, layout_cases(ctx, wide=not ctx.quick))
     exit_paths(ctx)
     sensitivity(ctx, nseeds=1 if ctx.quick else 4)
+    histories(ctx)
+    interrupt_scenario(ctx)
     plan = plan_runs(ctx, QUICK_CFGS, thorough=not ctx.quick)
     execute(ctx, plan)
 
@@ -1139,6 +1151,12 @@ def replay(ctx, rec):
     if c.get('kind') == 'exitpath':
         exit_paths(ctx)
         return
+    if c.get('kind') == 'history':
+        histories(ctx)
+        return
+    if c.get('kind') == 'interrupt':
+        interrupt_scenario(ctx)
+        return
     if c.get('kind') == 'sensitivity':
         g = c['cfg']
         ctx.rng.seed(c.get('imgseed', 0))
@@ -1150,3 +1168,270 @@ def replay(ctx, rec):
     faults = tuple(tuple(x) for x in c.get('faults') or [])
     hookmode = c.get('hook', 'log')
     execute(ctx, [(cfg, schedule, faults, hookmode, 'replay')], parallel=1)
+
+
+# =============================================================================================
+# histories: several filter_image calls in ONE process on one reused file name
+# =============================================================================================
+
+def child_history(cfg_path):
+    cfg = json.load(open(cfg_path))
+    sys.path.insert(0, cfg['repo'])
+    import uuid
+    import logging
+    import numpy as np
+    logging.disable(logging.CRITICAL)
+    out = cfg['out']
+    ids = []
+    orig = uuid.uuid4
+
+    def rec():
+        u = orig()
+        ids.append(str(u))
+        with open(os.path.join(out, 'ids'), 'a') as f:
+            f.write(str(u) + '\n')
+        return u
+    uuid.uuid4 = rec
+    from AegeanTools import BANE
+    from astropy.io import fits
+    reuse = os.path.join(out, 'reused_name.fits')
+    results = []
+
+    def call(path, st):
+        r = dict(outcome=None)
+        n0 = len(ids)
+        try:
+            bkg, rms = BANE.filter_image(path, out_base=None, step_size=tuple(st['step']), box_size=tuple(st['box']),
+                                         cores=st['cores'], nslice=st['nslice'], mask=st['mask'])
+            bkg, rms = np.asarray(bkg), np.asarray(rms)
+            r.update(outcome='done', shape=list(bkg.shape),
+                     hash=hashlib.sha256(bkg.tobytes() + b'|' + rms.tobytes()).hexdigest())
+            img = fits.getdata(path).astype(np.float64)
+            if 'BSCALE' in fits.getheader(path):
+                pass
+            if list(img.shape) == list(bkg.shape):
+                unwritten = (rms == 0) & (bkg == 0)
+                r['unwritten'] = int(unwritten.sum())
+                if st['mask']:
+                    r['mask_ok'] = bool(np.array_equal(~np.isfinite(bkg), ~np.isfinite(img)) and
+                                        np.array_equal(~np.isfinite(rms), ~np.isfinite(img)))
+        except BaseException as e:  # noqa
+            r.update(outcome='exception', etype=type(e).__name__, emsg=str(e)[-600:])
+        mine = ids[n0:]
+        try:
+            r['leaked'] = sorted(n for n in os.listdir('/dev/shm') if any(i in n for i in mine))
+        except OSError:
+            r['leaked'] = []
+        return r
+    for k, st in enumerate(cfg['steps']):
+        if not st.get('unchanged'):
+            tmp = os.path.join(out, f'tmp{k}.fits')
+            make_fits(tmp, st['rows'], st['cols'], seed=st['seed'], content=st['content'])
+            if st.get('bscale'):
+                with fits.open(tmp, mode='update') as h:
+                    h[0].header['BSCALE'] = st['bscale']
+            os.replace(tmp, reuse)
+        fresh = os.path.join(out, f'never_used_{k}.fits')
+        import shutil
+        shutil.copyfile(reuse, fresh)
+        a = call(reuse, st)
+        b = call(fresh, st)
+        results.append(dict(step=k, reused=a, fresh=b, image_shape=list(fits.getdata(fresh).shape)))
+        with open(os.path.join(out, 'result.json.tmp'), 'w') as f:
+            json.dump(dict(steps=results, complete=(k + 1 == len(cfg['steps']))), f)
+        os.replace(os.path.join(out, 'result.json.tmp'), os.path.join(out, 'result.part.json'))
+    os.replace(os.path.join(out, 'result.part.json'), os.path.join(out, 'result.json'))
+    sys.stdout.flush()
+    os._exit(0)
+
+
+def run_history(workdir, tag, steps, limit):
+    out = os.path.join(workdir, tag)
+    os.makedirs(out, exist_ok=True)
+    cfgp = os.path.join(out, 'cfg.json')
+    json.dump(dict(repo=common.repo_path(), out=out, steps=steps), open(cfgp, 'w'))
+    env = dict(os.environ)
+    env.pop('AEGEAN_VERIF', None)
+    env.pop('AEGEAN_VERIF_DIR', None)
+    env['PYTHONPATH'] = common.repo_path()
+    env['OMP_NUM_THREADS'] = env['OPENBLAS_NUM_THREADS'] = env['MKL_NUM_THREADS'] = '1'
+    p = subprocess.Popen([PY, HERE, '--child-history', cfgp], env=env, start_new_session=True, cwd=out,
+                         stdout=open(os.path.join(out, 'stdout'), 'w'), stderr=open(os.path.join(out, 'stderr'), 'w'))
+    t0 = time.time()
+    hang = False
+    while p.poll() is None and not os.path.exists(os.path.join(out, 'result.json')):
+        if time.time() - t0 > limit:
+            hang = True
+            break
+        time.sleep(0.01)
+    try:
+        os.killpg(p.pid, signal.SIGKILL)
+    except (ProcessLookupError, PermissionError):
+        pass
+    try:
+        p.wait(timeout=10)
+    except Exception:
+        pass
+    res = None
+    for name in ('result.json', 'result.part.json'):
+        if os.path.exists(os.path.join(out, name)):
+            try:
+                res = json.load(open(os.path.join(out, name)))
+                break
+            except Exception:
+                pass
+    try:
+        for i in [l.strip() for l in open(os.path.join(out, 'ids')) if l.strip()]:
+            for pre in ('ibkg_', 'irms_'):
+                try:
+                    os.unlink('/dev/shm/' + pre + i)
+                except OSError:
+                    pass
+    except OSError:
+        pass
+    stderr = ''
+    try:
+        stderr = open(os.path.join(out, 'stderr')).read()[-500:]
+    except OSError:
+        pass
+    return dict(hang=hang, result=res, stderr=stderr, wall=round(time.time() - t0, 2))
+
+
+def history_steps(rng):
+    """two histories: (a) one file name rewritten with images of different height / width / content, different grids,
+    stripe counts and masks, plus an unchanged repeat and a BSCALE rewrite; (b) one unchanged file, repeated calls
+    with different stripe counts (module globals memory_id / barrier must not leak between calls)"""
+    def st(rows, cols, step, box, cores, nslice, mask=True, content='noise', **kw):
+        return dict(rows=rows, cols=cols, step=[step, step], box=[box, box], cores=cores, nslice=nslice, mask=mask,
+                    content=content, seed=rows * 1000 + cols, **kw)
+    a = [st(48, 24, 8, 24, 2, 2), st(80, 24, 8, 24, 3, 3), st(32, 30, 4, 12, 2, 2, content='finite'),
+         st(32, 30, 4, 12, 2, 2, content='finite', unchanged=True), st(32, 30, 4, 12, 2, 2, content='finite', bscale=2.0),
+         st(64, 24, 8, 24, 2, 4, mask=False, content='blank:0:20')]
+    b = [st(56, 24, 8, 24, 2, 2), st(56, 24, 8, 24, 4, 4, unchanged=True), st(56, 24, 8, 24, 1, 3, unchanged=True),
+         st(56, 24, 8, 24, 3, 3, mask=False, unchanged=True), st(56, 24, 8, 24, 2, 2, unchanged=True)]
+    return [('rewritten-name', a), ('unchanged-file', b)]
+
+
+def histories(ctx):
+    from concurrent.futures import ThreadPoolExecutor
+    wd = calibrate(ctx)
+    _BATCH[0] += 1
+    work = os.path.join(ctx.tmpdir(), f'hist{_BATCH[0]}')
+    os.makedirs(work, exist_ok=True)
+    hs = history_steps(ctx.rng)
+    with ThreadPoolExecutor(max_workers=2) as ex:
+        res = list(ex.map(lambda kh: run_history(work, f'h{kh[0]}', kh[1][1], limit=max(60, 6 * wd * len(kh[1][1]) / 4)),
+                          enumerate(hs)))
+    for (name, steps), r in zip(hs, res):
+        done_steps = (r['result'] or {}).get('steps', [])
+        case0 = dict(kind='history', history=name, steps=steps)
+        if r['hang'] or len(done_steps) < len(steps):
+            k = len(done_steps)
+            ctx.fail('spec', dict(case0, failed_step=k),
+                     f"history '{name}': call {k} ({steps[k] if k < len(steps) else ''}) in a process that had already made {k} "
+                     f"filter_image calls {'did not return' if r['hang'] else 'killed the process'}: {r['stderr'][-300:]}",
+                     dict(what='history-hang' if r['hang'] else 'history-died', site='BANE.filter_image', history=name))
+        prev_hash = None
+        for k, d in enumerate(done_steps):
+            st = steps[k]
+            case = dict(case0, failed_step=k)
+            a, b = d['reused'], d['fresh']
+            ctx.count('history-call')
+            ctx.case(dict(kind='history', history=name, step=k, reused=a.get('outcome'), shape=a.get('shape')),
+                     nontrivial_key=('history', name, k) if k > 0 else None)
+            why = None
+            if a.get('outcome') != 'done':
+                why = f"raised {a.get('etype')}: {a.get('emsg', '')[-200:]}" if b.get('outcome') == 'done' else None
+                if why is None and b.get('outcome') != 'done':
+                    ctx.fail('spec', case, f"history '{name}' call {k}: filter_image fails on this input even under a never-used "
+                             f"name: {b.get('emsg', '')[-200:]}", dict(what='raises', site='BANE.filter_image'))
+                    continue
+            elif a.get('shape') != d['image_shape']:
+                why = f"maps have shape {a.get('shape')} but the file now holds an image of shape {d['image_shape']}"
+            elif a.get('unwritten'):
+                why = f"{a['unwritten']} pixels never written"
+            elif st['mask'] and st['content'] in ('noise', 'finite', 'const') and a.get('mask_ok') is False:
+                why = "mask of the maps differs from the non-finite pixels of the current image"
+            elif b.get('outcome') == 'done' and a.get('hash') != b.get('hash'):
+                why = "maps differ from the maps of the same content under a never-used file name (same process)"
+            elif st.get('unchanged') and name == 'rewritten-name' and prev_hash and a.get('hash') != prev_hash:
+                why = "maps differ from the previous call on the unchanged file with the same parameters"
+            if why:
+                ctx.fail('spec', case, f"history '{name}', call {k} on the reused file name after {k} earlier calls in the same process "
+                         f"({st['rows']}x{st['cols']}, grid {st['step']}, nslice {st['nslice']}, cores {st['cores']}): {why}",
+                         dict(what='history-dependence', site='BANE.filter_image', history=name))
+            if a.get('leaked') or b.get('leaked'):
+                ctx.fail('spec', case, f"history '{name}' call {k}: shared memory left behind: {a.get('leaked')} {b.get('leaked')}",
+                         dict(what='shm-leak', site='BANE.filter_mc_sharemem', history=name))
+            prev_hash = a.get('hash')
+    # the same inputs in fresh processes (one BANE call per process): the history child must agree bit for bit
+    fresh_jobs = []
+    for (name, steps), r in zip(hs, res):
+        for k, d in enumerate((r['result'] or {}).get('steps', [])):
+            st = steps[k]
+            if st.get('bscale') or d['reused'].get('outcome') != 'done':
+                continue
+            if name == 'unchanged-file' and k not in (0, 2):
+                continue
+            cfg = Config(st['rows'], st['cols'], st['step'], st['box'], st['cores'], st['nslice'], st['mask'], 'filter_image',
+                         content=st['content'])
+            fresh_jobs.append((name, k, cfg, d['reused'].get('hash')))
+    with ThreadPoolExecutor(max_workers=5) as ex:
+        fr = list(ex.map(lambda j: do_run(ctx, work, f'fresh{j[0]}', j[1][2], hook=False, watchdog=wd), enumerate(fresh_jobs)))
+    for (name, k, cfg, h), r in zip(fresh_jobs, fr):
+        ctx.count('history-fresh-process')
+        hh = (r.get('result') or {}).get('hash')
+        if r['outcome'] == 'done' and hh != h:
+            ctx.fail('spec', dict(kind='history', history=name, failed_step=k, steps=dict(hs)[name]),
+                     f"history '{name}' call {k}: the maps returned in the long-lived process differ from those of a fresh process "
+                     f"on the same image and parameters", dict(what='history-dependence', site='BANE.filter_image', history=name))
+
+
+# =============================================================================================
+# interrupt: Ctrl-C to the whole process group while the stripes are running
+# =============================================================================================
+
+def interrupt_scenario(ctx):
+    """BANE in its own session; once every stripe is forked, has finished pass 1 and is held before barrier 1,
+    SIGINT goes to the process group (what a terminal does on Ctrl-C).  The call must end (KeyboardInterrupt /
+    sys.exit) within the watchdog and leave no shared-memory segment.  [The property's 'never blocks … leaves no
+    shared-memory segment behind' is read as covering this exit path of the try/finally (`shm_released`).]"""
+    wd = calibrate(ctx)
+    _BATCH[0] += 1
+    work = os.path.join(ctx.tmpdir(), f'intr{_BATCH[0]}')
+    os.makedirs(work, exist_ok=True)
+    for cfg, n in ((Config(40, 24, 8, 24, 2, 2, True), 2), (Config(60, 24, 8, 24, 3, 3, False), 3)):
+        fpath = os.path.join(work, f'img_{cfg.rows}.fits')
+        make_fits(fpath, cfg.rows, cfg.cols, seed=cfg.rows)
+        sched = [(i, 'b1', 'gap') for i in range(n)]
+        r = run_bane(work, f'i{cfg.rows}', fpath, (cfg.rows, cfg.cols), (cfg.step, cfg.step), (cfg.box, cfg.box), cfg.cores,
+                     cfg.nslice, cfg.mask, schedule=sched, hook=True, watchdog=wd, interrupt=True)
+        case = dict(kind='interrupt', cfg=cfg.d())
+        sent = ('SIGINT', 'b1') in [tuple(g) for g in r['grants']]
+        ctx.count('interrupt')
+        ctx.case(dict(case, outcome=r['outcome'], sigint_sent=sent), nontrivial_key=('interrupt', cfg.rows))
+        if not sent:
+            ctx.note(f"interrupt scenario: stripes never all reached b1 (outcome {r['outcome']}); not judged")
+            continue
+        if r['outcome'] == 'hang':
+            r2 = run_bane(work, f'i{cfg.rows}b', fpath, (cfg.rows, cfg.cols), (cfg.step, cfg.step), (cfg.box, cfg.box),
+                          cfg.cores, cfg.nslice, cfg.mask, schedule=sched, hook=True, watchdog=3 * wd, interrupt=True)
+            if r2['outcome'] == 'hang':
+                ctx.fail('spec', case, f"SIGINT to the process group while {n} stripes were held before barrier 1: BANE did not end "
+                         f"within {wd:.0f}s (nor {3 * wd:.0f}s on a re-run); segments left in /dev/shm: {r2['leaked_after']}",
+                         dict(what='interrupt-hang', site='BANE.filter_mc_sharemem'))
+                continue
+            r = r2
+        if r['outcome'] not in ('exit', 'interrupt'):
+            ctx.fail('spec', case, f"after SIGINT the call ended with '{r['outcome']}' instead of KeyboardInterrupt / sys.exit: "
+                     f"{str((r.get('result') or {}).get('emsg'))[-200:]} {r['stderr'][-200:]}",
+                     dict(what='interrupt-outcome', site='BANE.filter_mc_sharemem'))
+        elif r.get('leaked_in_child'):
+            ctx.fail('spec', case, f"after SIGINT the call ended but left {r['leaked_in_child']} in /dev/shm",
+                     dict(what='shm-leak', site='BANE.filter_mc_sharemem', interrupt=True))
+
+
+if __name__ == '__main__' and len(sys.argv) >= 3 and sys.argv[1] == '--child':
+    child_main(sys.argv[2])
+if __name__ == '__main__' and len(sys.argv) >= 3 and sys.argv[1] == '--child-history':
+    child_history(sys.argv[2])
